@@ -338,7 +338,8 @@ class PercentFormatString:
                             yield from specifier.accept(pair.value, ctx)
                     else:
                         non_literals.append(pair.key)
-                keys_left = cs_map.keys() - seen_keys
+                # specifiers without a mapping key (already reported by lint()) have the key None
+                keys_left = {key for key in cs_map.keys() - seen_keys if key is not None}
                 if keys_left and not non_literals:
                     yield f"No value specified for keys {', '.join(keys_left)}"
         else:
